@@ -4,6 +4,10 @@ package checks
 var Registry = map[string]func(tier string){
 	"C01": C01,
 	"C16": C16,
+	"C06": C06,
+	"C03": C03,
+	"C17": C17,
+	"C05": C05,
 	"C19": C19,
 	"C18": C18,
 	"C12": C12,
